@@ -17,6 +17,7 @@ def run(ctx):
     ps, ms = scopes.py_scope("C01"), scopes.module_scope("C01")
     lib_tree.inverse_pairs(ctx, P)
     lib_tree.transitions(ctx, P)
+    lib_tree.edge_call_args(ctx, P)
     lib_tree.mirror_pairs(ctx, P)
     lib_tree.tree_copy_clear(ctx, P)
     lib_tree.index_domains(ctx, P)
